@@ -5,7 +5,7 @@
 # prints one line:  Cxx X build=ok suite=ok demo_with=FAIL demo_without=PASS
 set -u
 P=$1; X=$2
-case "$X" in C|D) SRC=/tmp/seed/${P}_out2/$X;; E|F) SRC=/tmp/seed/${P}_out3/$X;; G|H) SRC=/tmp/seed/${P}_out4/$X;; I|J) SRC=/tmp/seed/${P}_out5/$X;; K|L) SRC=/tmp/seed/${P}_out6/$X;; M|N) SRC=/tmp/seed/${P}_out7/$X;; O|P) SRC=/tmp/seed/${P}_out8/$X;; Q|R) SRC=/tmp/seed/${P}_out9/$X;; *) SRC=/tmp/seed/${P}_out/$X;; esac
+case "$X" in C|D) SRC=/tmp/seed/${P}_out2/$X;; E|F) SRC=/tmp/seed/${P}_out3/$X;; G|H) SRC=/tmp/seed/${P}_out4/$X;; I|J) SRC=/tmp/seed/${P}_out5/$X;; K|L) SRC=/tmp/seed/${P}_out6/$X;; M|N) SRC=/tmp/seed/${P}_out7/$X;; O|P) SRC=/tmp/seed/${P}_out8/$X;; Q|R) SRC=/tmp/seed/${P}_out9/$X;; S|T) SRC=/tmp/seed/${P}_out10/$X;; *) SRC=/tmp/seed/${P}_out/$X;; esac
 W=/tmp/conf/$P$X
 export GOFLAGS=-mod=mod GOPROXY=off GOSUMDB=off GOTOOLCHAIN=local
 rm -rf "$W"; mkdir -p "$W"
